@@ -5,9 +5,10 @@ used by `BTreeSet` / `sort_unstable`).
 
 Conventions
 * `SecondaryMap` / `SparseSecondaryMap` = `SMap` (partial function).  `m[k]` on an absent key
-  panics in Rust; the model reads a default (`getN`/`getL`).  `Props/C17.lean` proves that under
-  the invariant every key read by `try_merge` is present; the harness maps a real panic to the
-  answer `panic`, which the model never produces on that path, so it shows up as a difference.
+  panics in Rust; the model reads a default (`getN`/`getL`).  Under the invariant of
+  `Proofs/SMInv.lean` the keys `try_merge` reads are representatives, whose entries exist
+  (`Inv.layout`, `Inv.preds`); the harness maps a real panic to the answer `panic`, which the
+  model never produces on that path, so it shows up as a difference.
 * `HashSet<K>` (enemy sets) = duplicate-free list; only `contains` is observable.
 * `sort_unstable(); dedup()` and `collect::<BTreeSet<_>>()` = `toSortedSet` (the ascending
   duplicate-free list of the elements).
